@@ -331,6 +331,8 @@ def parseLine (p : Parsed) (line : String) : Parsed :=
     | none => { p with bad := true }
   -- harness-only: a second, independent dispatcher doing other things in the same process
   | "decoy" :: _ => p
+  -- harness-only: Python-level traits of a handler class (instances compare equal / are unhashable)
+  | "trait" :: _ => p
   | [] => p
   | _ => { p with bad := true }
 
